@@ -134,8 +134,12 @@ def run(ctx: Ctx) -> None:
                     if H.SECRET.encode() in tok or H.SECRET.encode() in _dec(tok):
                         pass
                 leak = any(H.SECRET.encode() in t or H.SECRET.encode() in _dec(t) for t in (cur, call))
+                if c["which"] == "both":
+                    # a complete foreign pair: (cursor, call) of another identity's stream / of a worker with another key
+                    pairs_ = [(x["cursor"], x["call"]) for x in cross_tokens.values()] if c["mut"] == "crossident" else list(foreign_pairs)
+                    vs = pairs_
                 target = cur if c["which"] == "cursor" else call
-                vs = _variants(target, c["mut"], ctx.rng, ctx.quick,
+                vs = vs if c["which"] == "both" else _variants(target, c["mut"], ctx.rng, ctx.quick,
                                other_kind=call if c["which"] == "cursor" else cur,
                                other_stream=b["cursor"] if c["which"] == "cursor" else b["call"],
                                foreign=[p[0] if c["which"] == "cursor" else p[1] for p in foreign_pairs],
@@ -154,7 +158,7 @@ def run(ctx: Ctx) -> None:
                     cur = ka["cursor"]
                     clock.now = t0 + ttl + 1
                 for vi, v in enumerate(vs):
-                    pc, pl = (v, call) if c["which"] == "cursor" else (cur, v)
+                    pc, pl = v if c["which"] == "both" else (v, call) if c["which"] == "cursor" else (cur, v)
                     n0 = len(H.HOOKS)
                     r_ = wk.cont("xa", ident, pc, pl, cancel=c["op"] == "cancel")
                     hooks = H.HOOKS[n0:]
@@ -166,9 +170,10 @@ def run(ctx: Ctx) -> None:
                          "uniform": (not served and r_["status"] == 400 and body == ref.get("body")) or served or r_["status"] != 400,
                          "leak": bool(leak)}
                     obs.append({"case": c, "obs": o})
+                    vrep = v[0] if c["which"] == "both" else v
                     meta.append({"ident": ident, "variant": vi, "message": (r_["error"] or {}).get("message"), "hooks": hooks,
-                                 "token_len": None if v is None else len(v)})
-                    ctx.case([c, ident, None if v is None else bytes(v).hex()[:64], vi],
+                                 "token_len": None if vrep is None else len(vrep)})
+                    ctx.case([c, ident, None if vrep is None else bytes(vrep).hex()[:64], vi],
                              sample={"row": c, "ident": ident, "variant": vi, "observed": o, "message": (r_["error"] or {}).get("message")}
                              if ci % 131 == 0 and vi == 0 else None)
     finally:
